@@ -244,6 +244,21 @@ def ee_stream(rep, drv, r, n):
                                   f'sample {i} of {m} on the monotone part: calc_radius_at_ee(profile[i]) = {rr}, radius[i] = {radii[i]}; '
                                   f'calc_ee_at_radius(radius[i]) = {ee}, profile[i] = {prof[i]}', replay)
                     break
+            else:
+                # the same after the normalisation state changed on this object (the interpolators follow the current profile)
+                for step in (('normalize', 'max'), ('normalize', 'sum'), ('unnormalize',)):
+                    try:
+                        getattr(cg, step[0])(*step[1:])
+                        pn = np.array(cg.profile)
+                        ee = np.array([float(cg.calc_ee_at_radius(radii[i])) for i in range(m)])
+                        rr = np.array([float(cg.calc_radius_at_ee(pn[i])) for i in range(m)])
+                    except Exception as e:                      # noqa: BLE001
+                        rep.violation('ee-raises:after-normalisation', f'EE interpolation after {step} raised {e!r}', replay)
+                        break
+                    if not (np.allclose(ee, pn[:m], rtol=1e-9, atol=0) and np.allclose(rr, radii[:m], rtol=1e-9, atol=0)):
+                        rep.violation('ee-not-inverse:after-normalisation', f'after {step}: calc_ee_at_radius(radius) = {ee.tolist()} but the profile is '
+                                      f'{pn[:m].tolist()}; calc_radius_at_ee(profile) = {rr.tolist()}', dict(replay, step=list(step)))
+                        break
 
 
 def replay(rep, data):
